@@ -78,6 +78,13 @@ theorem OkOr.of_only {β : Type} {x : Gen.Err} {r : Res β}
 /-- **An accepted definition is usable**: no modelled operation ends with an undocumented
 Python error on valid operands. -/
 structure AcceptedIsUsable : Prop where
+  -- ### constructors on an accepted definition
+  /-- The validating constructor returns the definition it was given (DFA `__init__`, NFA
+  `__init__` as called by the operations). -/
+  constructors : (∀ {σ α : Type} [DecidableEq σ] [DecidableEq α] (d : DFA σ α),
+      d.validate = .ok () → ∀ sv : Bool, d.mk' sv = .ok d) ∧
+    (∀ {σ α : Type} [DecidableEq σ] [DecidableEq α] (n : NFA σ α),
+      n.validate = .ok () → NFA.create n = .ok n)
   -- ### DFA: reading (C01)
   /-- `_get_next_current_state` from the sink or a declared state: no `KeyError`. -/
   dfa_step : ∀ {σ α : Type} [DecidableEq σ] [DecidableEq α] (d : DFA σ α), d.validate = .ok () →
@@ -138,6 +145,12 @@ structure AcceptedIsUsable : Prop where
     (pick : List Nat → Nat), d.validate = .ok () → d.PyShape → trap ∉ d.states →
     (∃ R, d.complementFull trap = .ok R) ∧ (∃ M, d.complementMinFull trap pick = .ok M) ∧
     (∃ R, DFA.invert d trap pick = .ok R)
+  /-- Results fed into further operations: every finite expression tree over
+  {∪, ∩, −, △, complement, to_partial, to_complete} with any `minify` flags, leaves valid DFAs
+  over one alphabet (`trapOf` = `_get_trap_state_id`: a name not among the states). -/
+  dfa_expr : ∀ {α : Type} [DecidableEq α] (trapOf : List Nat → Nat), (∀ l, trapOf l ∉ l) →
+    ∀ (pick : List Nat → Nat) (Sg : List α) (e : C04.DFAExpr α), e.LeavesOk Sg →
+    ∃ R, e.eval trapOf pick = .ok R
   -- ### DFA: comparisons (C06)
   /-- `issubset`, `isdisjoint` (`<=`, `>=`, `issuperset` are the same calls): a Boolean or
   `SymbolMismatchError`, for ALL operands (the model has no other exit). -/
@@ -329,6 +342,9 @@ theorem verdictOf_ok {g : TM.GenEnd} (h : ∀ e, g = .raised e → e = .lib .rej
 /-! ## the proof -/
 
 theorem C19_accepted_is_usable_partial : AcceptedIsUsable where
+  constructors :=
+    ⟨fun d hv sv => by cases sv <;> simp [DFA.mk', hv],
+     fun n hv => NFA.create_eq_ok n ((NFA.validate_eq_ok n).mp hv)⟩
   dfa_step := fun d hv s a hs => by
     have wf := (DFA.validate_eq_ok d).mp hv
     refine ⟨_, DFA.stepE_good wf ?_ a⟩
@@ -415,6 +431,9 @@ theorem C19_accepted_is_usable_partial : AcceptedIsUsable where
     ⟨let ⟨R, h, _⟩ := C04.C04_complement d hd pd trap ht; ⟨R, h⟩,
      let ⟨M, h, _⟩ := C04.C04_complement_min d trap pick hd pd ht; ⟨M, h⟩,
      let ⟨R, h, _⟩ := (C04.C04_invert d trap pick hd pd ht).2; ⟨_, h⟩⟩
+  dfa_expr := fun trapOf hfresh pick Sg e hl =>
+    let ⟨R, h, _⟩ := C04.C04_expr_all trapOf hfresh pick Sg e hl
+    ⟨R, h⟩
   dfa_issubset_isdisjoint := fun A B => by
     cases hs : A.symsEq B with
     | true =>
